@@ -11,6 +11,9 @@ THEOREMS = [_P + n for n in [
     "int_roundtrip", "int_option_roundtrip", "parseInt_showInt", "int_list_roundtrip", "parseParts_items", "bool_roundtrip", "bool_partial",
     "bool_wrong_type_refuted", "str_identity", "unknown_option_rejected", "unset_keep_default", "parseInt_rejects",
     "wrong_type_rejected_int", "wrong_type_rejected_config",
+    "timedelta_roundtrip", "timedelta_option_roundtrip", "wrong_type_rejected_float", "wrong_type_rejected_float_option",
+    "float_roundtrip", "float_option_roundtrip", "parseFloat_showDec", "datetime_roundtrip", "parseDatetime_iso",
+    "unset_keep_default_config", "bool_flag_no_value", "wrong_type_rejected_timedelta", "wrong_type_rejected_datetime",
 ]]
 TRUSTED = [
     "CPython int(str) / float(str) grammar on ASCII text, str.partition/split/lstrip/lower/replace, re on _TIMEDELTA_PATTERN, "
@@ -35,14 +38,19 @@ EXHAUSTIVE = {"quick": False, "thorough": False}
 CLAUSES = {
     "parsing a textual form yields that value (int)": "int_roundtrip, int_option_roundtrip (all n : Int)",
     "multiple values and integer ranges": "int_list_roundtrip (all non-empty item lists, ranges inclusive)",
-    "bool": "bool_roundtrip, bool_partial (six words, any letter case); flag without value: tie only",
-    "timedelta": "tie only: timedelta_roundtrip_goal stated (canonical <n><unit> sums), not proved",
+    "bool": "bool_roundtrip, bool_partial (six words, any letter case); flag without value: bool_flag_no_value",
+    "timedelta": "timedelta_roundtrip, timedelta_option_roundtrip (all non-empty canonical <n><unit> sums whose partial sums are valid timedeltas); "
+                 "fractional / signed / long-unit spellings: tie only",
     "str": "str_identity",
-    "float, datetime": "tie only: exact-decimal / strptime models compared with the implementation on generated texts",
-    "unset options keep their defaults": "unset_keep_default (command line); config file: tie only",
+    "float, datetime": "float_roundtrip, float_option_roundtrip (every decimal literal [-]digits[.digits][e+-digits] parses to the exact rational "
+                       "it denotes; the final rounding to a double is CPython's: tie only); datetime_roundtrip (zero-padded YYYY-MM-DD HH:MM:SS of every "
+                       "valid date/time); the other nine datetime formats, inf/nan and underscore spellings: tie only",
+    "unset options keep their defaults": "unset_keep_default (command line), unset_keep_default_config (config file)",
     "unknown command-line options are rejected": "unknown_option_rejected",
-    "values of the wrong type are rejected": "wrong_type_rejected_int, wrong_type_rejected_config; float: wrong_type_rejected_float_goal (tie only); "
-                                             "datetime/timedelta: tie only; bool: bool_wrong_type_full is refuted (bool_wrong_type_refuted) — known finding D18",
+    "values of the wrong type are rejected": "wrong_type_rejected_int, wrong_type_rejected_config; float: wrong_type_rejected_float, "
+                                             "wrong_type_rejected_float_option; "
+                                             "datetime: wrong_type_rejected_datetime (any character outside digits/letters/whitespace/-/:); timedelta: "
+                                             "wrong_type_rejected_timedelta (text not starting with a number); other malformed dates/durations: tie only; bool: bool_wrong_type_full is refuted (bool_wrong_type_refuted) — known finding D18",
 }
 PARALLEL = True
 CASE_TIMEOUT = 180   # wall-clock watchdog per case; generous because the machine may be heavily loaded
